@@ -2,11 +2,14 @@
 
 mod dbx;
 mod pure;
+mod model;
 mod seglogx;
+mod store;
+mod storechecks;
 
 use vlib::Check;
 
 fn main() {
-    let checks: Vec<&dyn Check> = vec![&pure::C23, &pure::C25, &seglogx::C17, &seglogx::C18];
+    let checks: Vec<&dyn Check> = vec![&pure::C23, &pure::C25, &seglogx::C17, &seglogx::C18, &storechecks::C01, &storechecks::C02, &storechecks::C03, &storechecks::C19];
     vlib::main_entry(&checks)
 }
